@@ -38,10 +38,10 @@ CLAIMS["C03"] = dict(technique="Lean 4 proof of the decision logic stated outrig
     text="Proved: with a working connection exactly one reply, the one the property's table prescribes (handler response / handler's code / NotSupported / constraint-violation class by dialect / GenericError / InternalError; invalid handler codes fall back to GenericError); never more than one reply; the handler runs iff the action is known, its handler set and this role receives it; the valid-code set is exactly OCPP-J's; the regenerated action switches are coherent (asserted type = feature's request type, method in the profile's handler interface). The matrix (feature x outcome x handler x role x write) runs on fresh real endpoints against the model and an independent oracle.",
     note=BASE_NOTE + "Handlers are generated stubs; concurrency between CALLs adds no shared state in the model (each CALL is answered from its own arguments).", **_D)
 CLAIMS["C04"] = dict(technique="Lean 4 proofs over a generic model of the JSON codec (any schema, any JSON value) and of the OCPP-J framing composed with the receive-path model; schemas regenerated by reflection and compared with a committed snapshot; differential on the real ocppj.Endpoint for every payload type (model = implementation incl. a hash of the re-serialised tree) with a second endpoint for the round trip",
-    text="Proved: frames have exactly the three OCPP-J shapes; a CALL / CALL_RESULT / CALL_ERROR that a sender can create is classified by the peer's ParseMessage model as the same kind, id and action; re-serialising a decoded payload is idempotent for every schema with distinct json keys and every well-typed value (norm_idem), so what an endpoint serialises is a fixpoint of decode-encode. Payload equality at the byte level is checked, not proved: every generated valid payload of all payload types x optional-field modes x both EscapeHTML settings is serialised by one real endpoint, parsed and re-serialised by a second one, bytes compared.",
+    text="Proved: frames have exactly the three OCPP-J shapes; a CALL / CALL_RESULT / CALL_ERROR that a sender can create is classified by the peer's ParseMessage model as the same kind, id and action; re-serialising a decoded payload is idempotent for every schema with distinct json keys and every well-typed value (norm_idem, mutual structural induction), only declared keys go on the wire, each field contributes its normalised value or nothing under omitempty; the 412 payload schemas regenerated from the tree are all well-formed (kernel-decided), so the theorem applies to every request and response of every feature of both versions. Payload equality at the byte level is checked, not proved: every generated valid payload of all payload types x optional-field modes x both EscapeHTML settings is serialised by one real endpoint, parsed and re-serialised by a second one, bytes compared.",
     note=BASE_NOTE + "encoding/json is a trusted library (tree-level model, diffed); DateTime is C20's subject; floats in canonical form only.", **_D)
 CLAIMS["C05"] = dict(technique="Lean 4 proofs over the generic validator model (any schema, any JSON value): first failing tag, error-code class by dialect, sender/receiver agreement; constraint snapshot as the oracle for 'the OCPP constraints'; differential + property oracle on the real ocppj.Endpoint with single-constraint mutants of every constrained field",
-    text="Proved: the code of a rejected payload is the dialect's Occurrence code for a missing required field, PropertyConstraintViolation for length / bound moves, Formation/FormatViolation for a wrong JSON type, always a valid OCPP-J code; accepted iff no code; sender and receiver apply the same function. Checked on the real endpoints for every payload type: valid payloads (from the snapshot, all optional-field modes, boundary values) are accepted by sender and receiver, each single violation (required dropped, max+1, bound-1, empty mandatory array, undeclared enumeration value, wrong JSON type) is refused by both with the prescribed code. Two defects found by this check were repaired (be7ce89 missing 1.6 hashAlgorithm validator, 561e228 missing dive on chargingSchedulePeriod). Enumeration violations are answered with GenericError (design question S16): the oracle only requires a refusal for them.",
+    text="Proved for any schema and value: for scalar fields the validator finds no failing tag iff the field is empty under omitempty or required is met and every tag holds (scalar_check_iff); a missing required scalar is reported as required; nil pointers fail with their first tag unless omitempty; tags on struct-kind fields are never evaluated (why non-pointer DateTime needs a struct-level validator); accepted iff well-typed and no failing tag; the receiver validates the same value the sender validated (sender_receiver_agree, via C04's idempotence). The code of a rejected payload is the dialect's Occurrence code for a missing required field, PropertyConstraintViolation for length / bound moves, Formation/FormatViolation for a wrong JSON type, always a valid OCPP-J code; accepted iff no code; sender and receiver apply the same function. Checked on the real endpoints for every payload type: valid payloads (from the snapshot, all optional-field modes, boundary values) are accepted by sender and receiver, each single violation (required dropped, max+1, bound-1, empty mandatory array, undeclared enumeration value, wrong JSON type) is refused by both with the prescribed code. Two defects found by this check were repaired (be7ce89 missing 1.6 hashAlgorithm validator, 561e228 missing dive on chargingSchedulePeriod). Enumeration violations are answered with GenericError (design question S16): the oracle only requires a refusal for them.",
     note=BASE_NOTE + "The committed snapshot expected/schemas.json stands in for the OCPP specification; validator v9 is a trusted library whose tag semantics are re-implemented in the model and diffed.", **_D)
 CLAIMS["C06"] = dict(technique="Lean 4 proof over a total model of the OCPP-J receive path (every decoded JSON value, every payload verdict) composed with the dispatcher refinement: invariant preserved by every interleaving of arbitrary frames with API events; differential on real endpoints with malformed-frame stream; process-isolated fuzz monitor on the four protocol endpoints",
     text="Proved: a frame that is not a CALL_RESULT/CALL_ERROR carrying the non-empty id of the outstanding request leaves the whole endpoint state equal (client: every field; server: every client's record); such a state-changing frame is exactly the dispatcher event `reply id`, so every unbounded interleaving of arbitrary frames (any JSON value or non-JSON, any payload verdict) with well-formed API/connection events keeps the client invariant (alive: no panic, nothing wedged; bookkeeping = specification); an error reply is written only with the frame's own non-empty id of at most 36 characters and a valid OCPP-J code, at most one per frame. Server side: state-equality and reply-event theorems (the server refinement is not proved; its liveness is C07_partial). Crash freedom of typed decoding for arbitrary payloads is searched (fuzz monitor), not proved.",
